@@ -1660,6 +1660,30 @@ func c17AttemptCtx(c *Ctx, exec *ssa.Function) {
 		case *ssa.Extract:
 			return fromParam(fn, x.Tuple, d+1, seen)
 		case *ssa.Call:
+			// a library helper that makes the request's context (withStreamLifetime(ctx)): what it RETURNS must descend
+			// from the context it was handed — values and all — not from a member it merely ties the caller's
+			// cancellation to
+			if sc := ir.StaticCallee(x); sc != nil && c.P.IsLib(sc) && sc.Blocks != nil && !strings.Contains(ir.PkgPathOf(sc), "internal/context") {
+				okAll, any := true, false
+				for _, b := range sc.Blocks {
+					ret, ok := b.Instrs[len(b.Instrs)-1].(*ssa.Return)
+					if !ok {
+						continue
+					}
+					for _, res := range ir.Results(ret) {
+						if ir.TypeStr(res.Type()) != "context.Context" {
+							continue
+						}
+						any = true
+						if !fromParam(sc, res, d+1, seen) {
+							okAll = false
+						}
+					}
+				}
+				if any && !okAll {
+					return false
+				}
+			}
 			for _, a := range x.Call.Args {
 				if ir.TypeStr(a.Type()) == "context.Context" && fromParam(fn, a, d+1, seen) {
 					return true
